@@ -5,7 +5,7 @@
    reference implementation is the differential check ./check C07 (checks 701-703). *)
 From Coq Require Import ZArith List Bool Lia.
 From DG Require Import CaseFormat ProtoWireRef ProtoWireRefProofs ProtoMsg ProtoMsgProofs
-  ProtoGeneric ProtoGenericAlg ProtoGenericProofs.
+  ProtoGeneric ProtoGenericAlg ProtoGenericDom ProtoGenericProofs ProtoGenericRefine.
 Import ListNotations.
 Local Open Scope Z_scope.
 
@@ -137,6 +137,111 @@ Theorem C07_getByPath_repaired_on_witnesses :
    gbp all_fixes S_w [77] (encode_msg m') [PField 4; PField 3] = GFoundA 19 [26; 1; 120] 1).
 Proof. exact gbp_repaired_on_witnesses. Qed.
 Print Assumptions C07_getByPath_repaired_on_witnesses.
+
+(* ------------------------------------------------------------------------------------------------------------------
+   REFINEMENT (mirror of C01's get_by_path_refines_lookup). Value.getByPath as coded, with every recorded repair
+   applied (gbp all_fixes: chained skip over the records of a message, packed payload indexing by element wire type,
+   element runs of unpacked lists, map entry scan with the string / Go-int key readers, final slice), computes the
+   spec lookup on the encoding of EVERY well-formed message of EVERY schema for EVERY path:
+     found      |-> exactly the node type, the span = the encoding of the element (node_raw), and the element count;
+     not-found  exactly when the element is absent (field absent, index < 0 or >= size, key absent): the
+                not-found-last answer when the absent step is the last one, an error value otherwise;
+     a field step the schema does not declare: not-found / error, never a value;
+     a step that does not fit the shape of the value (LErr): no claim - the Go code has no such check
+                (it dereferences a nil descriptor, or walks into element 0 of a list of messages).
+   Domain (computable, ProtoGenericDom.gbp_domain): schema_okb (distinct field numbers per message, map keys of a
+   kind ReadInt reads or string), wf_msg (any ORDER of fields - the group-contiguous encodings, ascending or not),
+   encoding shorter than 2^63 bytes, integer map keys in the Go int range, a non-empty path.
+   Outside the domain: split runs of one repeated field / repeated occurrences of a singular field (the reference
+   never emits them): see C07_noncanonical_first_run below for what the code does there; covered by the check only
+   as far as the generator permutes whole field groups. *)
+Theorem C07_get_by_path_refines_plookup :
+  forall S root m p, gbp_domain S root m p = true ->
+  match plookup_root S root m p with
+  | LFound lbl t num v =>
+      gbp all_fixes S root (encode_msg m) p = GFoundA (node_type lbl t) (node_raw lbl num v) (size_of v)
+  | LNotFound last => gbp all_fixes S root (encode_msg m) p = (if last then GNotFoundA else GErrA)
+  | LUndeclared => gbp all_fixes S root (encode_msg m) p = GNotFoundA \/ gbp all_fixes S root (encode_msg m) p = GErrA
+  | LErr => True
+  end.
+Proof.
+  intros S root m p H. pose proof (gbp_refines_plookup S root m p H) as R. unfold refines in R.
+  destruct (plookup_root S root m p); cbn [expected_gout In] in R; intuition.
+Qed.
+Print Assumptions C07_get_by_path_refines_plookup.
+
+(* the same at any base offset and with any tail: a length-prefixed (non-root) message inside a larger buffer *)
+Theorem C07_get_by_path_refines_plookup_at_offset :
+  forall S root m p pre tail, gbp_domain S root m p = true ->
+  plen (pre ++ (varint_enc (plen (encode_msg m)) ++ encode_msg m) ++ tail) < 2 ^ 63 ->
+  let g := gbp_loop all_fixes S (pre ++ (varint_enc (plen (encode_msg m)) ++ encode_msg m) ++ tail) p (plen pre) false
+                    LSingular (TMsg root) 0 in
+  match plookup_root S root m p with
+  | LFound lbl t num v => g = GFoundA (node_type lbl t) (node_raw lbl num v) (size_of v)
+  | LNotFound last => g = (if last then GNotFoundA else GErrA)
+  | LUndeclared => g = GNotFoundA \/ g = GErrA
+  | LErr => True
+  end.
+Proof.
+  intros S root m p pre tail H Hl. pose proof (gbp_nested_refines_plookup S root m p pre tail H Hl) as R. unfold refines in R.
+  cbv zeta. destruct (plookup_root S root m p); cbn [expected_gout In] in R; intuition.
+Qed.
+Print Assumptions C07_get_by_path_refines_plookup_at_offset.
+
+(* the span returned for a found element decodes, with the proved decoder, to that element *)
+Theorem C07_found_span_decodes :
+  forall S root m p lbl t num v fd fuel,
+  gbp_domain S root m p = true -> plookup_root S root m p = LFound lbl t num v ->
+  fd_label fd = lbl -> fd_type fd = t -> (depth v <= fuel)%nat ->
+  gbp all_fixes S root (encode_msg m) p = GFoundA (node_type lbl t) (node_raw lbl num v) (size_of v) /\
+  wenc (wfld num v) = match lbl with LSingular => tagb num (elem_wt t) ++ node_raw lbl num v | _ => node_raw lbl num v end /\
+  wdec (wenc (wfld num v)) = Some (wfld num v) /\
+  dec_field (decode_msg S fuel) fd (map snd (wfld num v)) = Some (Some v).
+Proof. exact found_span_decodes. Qed.
+Print Assumptions C07_found_span_decodes.
+
+(* non-vacuity of the refinement: the domain predicate holds on a message with every field shape, in NON-ascending
+   field order, and the theorem's answers are these *)
+Definition S_rf : schema :=
+ [mk_mdesc [77] [mk_fdesc 1 [97] [97] LSingular (TScalar 5);
+                 mk_fdesc 2 [98] [98] (LRepeated true) (TScalar 17);
+                 mk_fdesc 3 [99] [99] LSingular (TMsg [77]);
+                 mk_fdesc 4 [100] [100] (LMap 9) (TMsg [77]);
+                 mk_fdesc 5 [101] [101] (LRepeated false) (TScalar 9);
+                 mk_fdesc 6 [102] [102] (LMap 7) (TScalar 2);
+                 mk_fdesc 7 [103] [103] (LRepeated false) (TMsg [77])]].
+Definition m_rf : pmsg :=
+ [(6, VMap [(KInt 7 4000000000, VScalar 2 1065353216)]);
+  (5, VList false [VBytes 9 [104;105]; VBytes 9 []]);
+  (2, VList true [VScalar 17 (-1); VScalar 17 300]);
+  (7, VList false [VMsg []; VMsg [(1, VScalar 5 9)]]);
+  (4, VMap [(KStr [120], VMsg [(1, VScalar 5 1)]); (KStr [], VMsg [])]);
+  (1, VScalar 5 (-3));
+  (3, VMsg [(3, VMsg []); (1, VScalar 5 7)])].
+Example C07_refinement_example :
+  gbp_domain S_rf [77] m_rf [PField 4; PStrKey [120]; PName [97]] = true /\
+  gbp all_fixes S_rf [77] (encode_msg m_rf) [PField 4; PStrKey [120]; PName [97]] = GFoundA 5 [1] 0 /\
+  gbp all_fixes S_rf [77] (encode_msg m_rf) [PField 2; PIndex 1] = GFoundA 17 [216; 4] 0 /\
+  gbp all_fixes S_rf [77] (encode_msg m_rf) [PField 2; PIndex 2] = GNotFoundA /\
+  gbp all_fixes S_rf [77] (encode_msg m_rf) [PField 2] = GFoundA 19 [18; 3; 1; 216; 4] 2 /\
+  gbp all_fixes S_rf [77] (encode_msg m_rf) [PField 5; PIndex 0] = GFoundA 9 [2; 104; 105] 0 /\
+  gbp all_fixes S_rf [77] (encode_msg m_rf) [PField 7; PIndex 1; PField 1] = GFoundA 5 [9] 0 /\
+  gbp all_fixes S_rf [77] (encode_msg m_rf) [PField 7; PIndex 0; PField 1] = GNotFoundA /\
+  gbp all_fixes S_rf [77] (encode_msg m_rf) [PField 6; PIntKey 4000000000] = GFoundA 2 [0; 0; 128; 63] 0 /\
+  gbp all_fixes S_rf [77] (encode_msg m_rf) [PField 3; PField 3; PField 1] = GNotFoundA /\
+  gbp all_fixes S_rf [77] (encode_msg m_rf) [PField 7; PIndex 0; PField 3; PField 1] = GErrA /\
+  gbp_domain S_rf [77] m_rf [PField 6; PIntKey 4000000000] = true.
+Proof. vm_compute. repeat split. Qed.
+
+(* outside the domain: a repeated field split into two runs and a singular field written twice. The reference decoder
+   (decode_top) merges the runs and lets the last occurrence win; getByPath answers from the FIRST run / occurrence.
+   Field 5 = ["hi"], field 1 = 7, field 5 = ["yo"], field 1 = 9. *)
+Example C07_noncanonical_first_run :
+  let bs := wenc [(5, WBytes [104;105]); (1, WVarint 7); (5, WBytes [121;111]); (1, WVarint 9)] in
+  decode_top S_rf [77] bs = Some [(5, VList false [VBytes 9 [104;105]; VBytes 9 [121;111]]); (1, VScalar 5 9)] /\
+  gbp all_fixes S_rf [77] bs [PField 5] = GFoundA 19 [42; 2; 104; 105] 1 /\
+  gbp all_fixes S_rf [77] bs [PField 1] = GFoundA 5 [7] 0.
+Proof. vm_compute. repeat split. Qed.
 
 (* non-vacuity: a concrete well-formed message with every field shape, its encoding, and lookups into it *)
 Definition S_ex : schema :=
